@@ -76,6 +76,7 @@ func runC09(args []string) int {
 	runDir := filepath.Join(verifRoot, "build", "run")
 	os.MkdirAll(runDir, 0o755)
 
+	lastStderr := ""
 	runPhase := func(phase string) (*c09RaceOut, string, int, error) {
 		logBase := filepath.Join(runDir, "c09race-"+phase)
 		old, _ := filepath.Glob(logBase + ".*")
@@ -87,9 +88,11 @@ func runC09(args []string) int {
 		c := exec.Command(bin, "c09-race", "--tier", o.tier, "--seed", fmt.Sprint(o.seed), "--driver", o.driver, "--boost", fmt.Sprint(o.boost), "--out", outJSON, "--replay", phase)
 		c.Dir = verifRoot
 		c.Env = append(os.Environ(), "GORACE=exitcode=66 halt_on_error=0 log_path="+logBase)
-		c.Stderr = os.Stderr
+		var stderr strings.Builder
+		c.Stderr = &stderr
 		c.Stdout = os.Stdout
 		err := c.Run()
+		lastStderr = stderr.String()
 		code := 0
 		if ee, ok := err.(*exec.ExitError); ok {
 			code = ee.ExitCode()
@@ -99,6 +102,10 @@ func runC09(args []string) int {
 		var ro c09RaceOut
 		b, rerr := os.ReadFile(outJSON)
 		if rerr != nil {
+			if code != 0 {
+				// the process died (e.g. "fatal error: concurrent map writes")
+				return &c09RaceOut{Phase: phase, Err: "crashed"}, "", code, nil
+			}
 			return nil, "", code, fmt.Errorf("phase %s wrote no result (exit %d)", phase, code)
 		}
 		if err := json.Unmarshal(b, &ro); err != nil {
@@ -119,6 +126,12 @@ func runC09(args []string) int {
 	if err != nil {
 		fmt.Println("c09:", err)
 		return 2
+	}
+	if dom.Err == "crashed" {
+		head := crashHead(lastStderr)
+		r.specFail("concurrent_crash", fmt.Sprintf("the process died (exit %d) while goroutines used the entry points on independent inputs inside the domain of C09_noninterference\n%s", domCode, indent(head, "    ")),
+			map[string]interface{}{"phase": "domain", "seed": o.seed, "tier": o.tier, "exit": domCode, "stderr_head": head})
+		return r.finish()
 	}
 	if dom.Err != "" {
 		fmt.Println("c09: domain phase:", dom.Err)
@@ -178,6 +191,31 @@ func runC09(args []string) int {
 		r.Notes = append(r.Notes, "the witnesses of C09_race_refuted no longer make the race detector report a race")
 	}
 	return r.finish()
+}
+
+// crashHead: the fatal error line and the first frames inside the library.
+func crashHead(stderr string) string {
+	var out []string
+	lines := strings.Split(stderr, "\n")
+	for k, l := range lines {
+		t := strings.TrimSpace(l)
+		if strings.HasPrefix(t, "fatal error") || strings.HasPrefix(t, "panic:") || strings.HasPrefix(t, "WARNING: DATA RACE") {
+			out = append(out, t)
+		} else if strings.HasPrefix(t, "github.com/tormoder/fit") && !strings.Contains(t, "verifharness") && k+1 < len(lines) {
+			loc := strings.TrimSpace(lines[k+1])
+			if sp := strings.LastIndex(loc, " +0x"); sp > 0 {
+				loc = loc[:sp]
+			}
+			out = append(out, "  "+t+"  "+strings.Replace(loc, repoRoot+"/", "", 1))
+		}
+		if len(out) > 12 {
+			break
+		}
+	}
+	if len(out) == 0 {
+		return clip(strings.TrimSpace(stderr), 800)
+	}
+	return strings.Join(out, "\n")
 }
 
 func indent(s, pre string) string {
@@ -391,10 +429,57 @@ func runC09Race(args []string) int {
 		encCalls = append(encCalls, c08Call{Entry: "E", In: f})
 	}
 	all := append(append([]c08Call{}, decCalls...), encCalls...)
-	// sequential baseline, before any concurrency
+	// cold round: the very first calls of this process are made concurrently,
+	// so that lazily initialised package-level state is first touched under
+	// concurrency; its results are compared with the sequential baseline
+	// taken right after (inside the domain a result does not depend on what
+	// ran before: C08)
+	type coldRes struct {
+		g   int
+		c   c08Call
+		got string
+	}
+	var cold []coldRes
+	{
+		var wg sync.WaitGroup
+		start := make(chan struct{})
+		for g := 0; g < 16; g++ {
+			wg.Add(1)
+			lr := rg.fork()
+			go func(g int, lr *rng) {
+				defer wg.Done()
+				<-start
+				var mine []coldRes
+				for i := 0; i < 40; i++ {
+					c := all[lr.intn(len(all))]
+					if i%2 == 0 {
+						c = encCalls[lr.intn(len(encCalls))]
+					}
+					mine = append(mine, coldRes{g, c, c09Call(c)})
+				}
+				mu.Lock()
+				cold = append(cold, mine...)
+				mu.Unlock()
+			}(g, lr)
+		}
+		close(start)
+		wg.Wait()
+	}
+	// sequential baseline
 	baseline := map[string]string{}
 	for _, c := range all {
 		baseline[c.key()] = c09Call(c)
+	}
+	for _, cr := range cold {
+		out.Calls++
+		out.Hist["mix_cold"]++
+		out.Hist["call_"+cr.c.Entry]++
+		if strings.HasPrefix(cr.got, "err=0") {
+			out.Nontrivial++
+		}
+		if want := baseline[cr.c.key()]; cr.got != want && len(out.Mismatches) < 40 {
+			out.Mismatches = append(out.Mismatches, c09Mismatch{Mix: "cold", Goroutine: cr.g, Call: cr.c, Sequential: clip(want, 2000), Concurrent: clip(cr.got, 2000), Procs: runtime.GOMAXPROCS(0)})
+		}
 	}
 	out.Samples = append(out.Samples, fmt.Sprintf("%d decoding calls and %d Encode calls over %d streams / %d Files", len(decCalls), len(encCalls), len(streams), len(files)))
 	goroutines, perG := 16, 200
